@@ -2,11 +2,8 @@ package main
 
 import (
 	"crypto"
-	"crypto/ecdsa"
-	"crypto/ed25519"
-	"crypto/elliptic"
-	"crypto/rand"
-	"crypto/rsa"
+	"crypto/x509"
+	"encoding/pem"
 	"errors"
 	"io"
 	"strconv"
@@ -36,28 +33,22 @@ var (
 func theKeys() map[int]*keyPair {
 	keysOnce.Do(func() {
 		keys = map[int]*keyPair{}
-		for _, k := range []int{1, 2} {
-			p, err := ecdsa.GenerateKey(elliptic.P256(), rand.Reader)
+		algs := map[int]cose.Algorithm{1: cose.AlgorithmES256, 2: cose.AlgorithmES256, 3: cose.AlgorithmES384, 4: cose.AlgorithmEdDSA, 5: cose.AlgorithmPS256}
+		for k, pemText := range fixedKeysPEM {
+			blk, _ := pem.Decode([]byte(pemText))
+			if blk == nil {
+				panic("bad fixed key PEM")
+			}
+			key, err := x509.ParsePKCS8PrivateKey(blk.Bytes)
 			if err != nil {
 				panic(err)
 			}
-			keys[k] = &keyPair{cose.AlgorithmES256, p, p.Public()}
+			sg, ok := key.(crypto.Signer)
+			if !ok {
+				panic("fixed key is not a crypto.Signer")
+			}
+			keys[k] = &keyPair{algs[k], sg, sg.Public()}
 		}
-		p3, err := ecdsa.GenerateKey(elliptic.P384(), rand.Reader)
-		if err != nil {
-			panic(err)
-		}
-		keys[3] = &keyPair{cose.AlgorithmES384, p3, p3.Public()}
-		pub, priv, err := ed25519.GenerateKey(rand.Reader)
-		if err != nil {
-			panic(err)
-		}
-		keys[4] = &keyPair{cose.AlgorithmEdDSA, priv, pub}
-		r, err := rsa.GenerateKey(rand.Reader, 2048)
-		if err != nil {
-			panic(err)
-		}
-		keys[5] = &keyPair{cose.AlgorithmPS256, r, r.Public()}
 	})
 	return keys
 }
